@@ -166,21 +166,25 @@ pub enum FeCall {
     Event { k: usize, parent: String, vals: PVals },
 }
 
-/// Runs the program against `dispatch`; returns the log of subscriber calls made.
-pub fn run(dispatch: &Dispatch, prog: &Program) -> Vec<FeCall> {
-    let metas: Vec<&'static Metadata<'static>> = prog.sites.iter().map(dynsite::metadata_for).collect();
-    if prog.malformed {
-        return vec![];
+/// Step-wise front end: the state kept between operations of one thread.
+pub struct Runner {
+    metas: Vec<&'static Metadata<'static>>,
+    pub handles: Vec<Option<(Id, usize)>>,
+    registered: HashSet<usize>,
+    pub log: Vec<FeCall>,
+}
+
+impl Runner {
+    pub fn new(sites: &[Site]) -> Self {
+        Self { metas: sites.iter().map(dynsite::metadata_for).collect(), handles: vec![], registered: HashSet::new(), log: vec![] }
     }
-    let mut handles: Vec<Option<(Id, usize)>> = vec![];
-    let mut registered: HashSet<usize> = HashSet::new();
-    let mut log = vec![];
-    let resolve = |handles: &Vec<Option<(Id, usize)>>, p: &PParent| -> (Option<Option<Id>>, String) {
+
+    fn resolve(&self, p: &PParent) -> (Option<Option<Id>>, String) {
         // None = contextual, Some(None) = root, Some(Some(id)) = explicit
         match p {
             PParent::Ctx => (None, "ctx".into()),
             PParent::Root => (Some(None), "root".into()),
-            PParent::Handle(s) => match handles.get(*s).cloned().flatten() {
+            PParent::Handle(s) => match self.handles.get(*s).cloned().flatten() {
                 Some((id, _)) => {
                     let tok = format!("p:{}", id.into_u64());
                     (Some(Some(id)), tok)
@@ -188,97 +192,116 @@ pub fn run(dispatch: &Dispatch, prog: &Program) -> Vec<FeCall> {
                 None => (Some(None), "root".into()),
             },
         }
-    };
-    for op in &prog.ops {
+    }
+
+    pub fn step(&mut self, dispatch: &Dispatch, op: &POp) {
+        let (metas, log) = (self.metas.clone(), &mut Vec::new());
+        std::mem::swap(log, &mut self.log);
+        let mut log = std::mem::take(log);
         match op {
             POp::Reg(k) => {
-                let Some(meta) = metas.get(*k) else { continue };
-                dispatch.register_callsite(meta);
-                registered.insert(*k);
-                log.push(FeCall::Register(*k));
-            }
-            POp::New { k, parent, vals } => {
-                let Some(meta) = metas.get(*k).copied() else { handles.push(None); continue };
-                if registered.insert(*k) {
+                if let Some(meta) = metas.get(*k) {
                     dispatch.register_callsite(meta);
+                    self.registered.insert(*k);
                     log.push(FeCall::Register(*k));
                 }
-                if !dispatch.enabled(meta) {
-                    handles.push(None);
-                    continue;
-                }
-                let (par, ptok) = resolve(&handles, parent);
-                let id = with_values(meta, vals, |vs| {
-                    let attrs = match par {
-                        None => Attributes::new(meta, vs),
-                        Some(None) => Attributes::new_root(meta, vs),
-                        Some(Some(pid)) => Attributes::child_of(pid, meta, vs),
-                    };
-                    dispatch.new_span(&attrs)
-                });
-                log.push(FeCall::NewSpan { k: *k, id: id.into_u64(), parent: ptok, vals: vals.clone() });
-                handles.push(Some((id, *k)));
             }
+            POp::New { k, parent, vals } => match metas.get(*k).copied() {
+                None => self.handles.push(None),
+                Some(meta) => {
+                    if self.registered.insert(*k) {
+                        dispatch.register_callsite(meta);
+                        log.push(FeCall::Register(*k));
+                    }
+                    if !dispatch.enabled(meta) {
+                        self.handles.push(None);
+                    } else {
+                        let (par, ptok) = self.resolve(parent);
+                        let id = with_values(meta, vals, |vs| {
+                            let attrs = match par {
+                                None => Attributes::new(meta, vs),
+                                Some(None) => Attributes::new_root(meta, vs),
+                                Some(Some(pid)) => Attributes::child_of(pid, meta, vs),
+                            };
+                            dispatch.new_span(&attrs)
+                        });
+                        log.push(FeCall::NewSpan { k: *k, id: id.into_u64(), parent: ptok, vals: vals.clone() });
+                        self.handles.push(Some((id, *k)));
+                    }
+                }
+            },
             POp::Rec { s, vals } => {
-                if let Some((id, k)) = handles.get(*s).cloned().flatten() {
+                if let Some((id, k)) = self.handles.get(*s).cloned().flatten() {
                     with_values(metas[k], vals, |vs| dispatch.record(&id, &Record::new(vs)));
                     log.push(FeCall::Record { id: id.into_u64(), k, vals: vals.clone() });
                 }
             }
             POp::Fol(s, t) => {
-                if let (Some((a, _)), Some((b, _))) = (handles.get(*s).cloned().flatten(), handles.get(*t).cloned().flatten()) {
+                if let (Some((a, _)), Some((b, _))) = (self.handles.get(*s).cloned().flatten(), self.handles.get(*t).cloned().flatten()) {
                     dispatch.record_follows_from(&a, &b);
                     log.push(FeCall::Follows(a.into_u64(), b.into_u64()));
                 }
             }
             POp::Ent(s) => {
-                if let Some((id, _)) = handles.get(*s).cloned().flatten() {
+                if let Some((id, _)) = self.handles.get(*s).cloned().flatten() {
                     dispatch.enter(&id);
                     log.push(FeCall::Enter(id.into_u64()));
                 }
             }
             POp::Ext(s) => {
-                if let Some((id, _)) = handles.get(*s).cloned().flatten() {
+                if let Some((id, _)) = self.handles.get(*s).cloned().flatten() {
                     dispatch.exit(&id);
                     log.push(FeCall::Exit(id.into_u64()));
                 }
             }
-            POp::Cln(s) => match handles.get(*s).cloned().flatten() {
+            POp::Cln(s) => match self.handles.get(*s).cloned().flatten() {
                 Some((id, k)) => {
                     let new_id = dispatch.clone_span(&id);
                     log.push(FeCall::Clone(id.into_u64()));
-                    handles.push(Some((new_id, k)));
+                    self.handles.push(Some((new_id, k)));
                 }
-                None => handles.push(None),
+                None => self.handles.push(None),
             },
             POp::Drp(s) => {
-                if let Some((id, _)) = handles.get(*s).cloned().flatten() {
+                if let Some((id, _)) = self.handles.get(*s).cloned().flatten() {
                     log.push(FeCall::TryClose(id.into_u64()));
                     dispatch.try_close(id);
                 }
             }
             POp::Evt { k, parent, vals } => {
-                let Some(meta) = metas.get(*k).copied() else { continue };
-                if registered.insert(*k) {
-                    dispatch.register_callsite(meta);
-                    log.push(FeCall::Register(*k));
+                if let Some(meta) = metas.get(*k).copied() {
+                    if self.registered.insert(*k) {
+                        dispatch.register_callsite(meta);
+                        log.push(FeCall::Register(*k));
+                    }
+                    if dispatch.enabled(meta) {
+                        let (par, ptok) = self.resolve(parent);
+                        with_values(meta, vals, |vs| {
+                            let event = match par {
+                                None => Event::new(meta, vs),
+                                Some(pid) => Event::new_child_of(pid, meta, vs),
+                            };
+                            dispatch.event(&event);
+                        });
+                        log.push(FeCall::Event { k: *k, parent: ptok, vals: vals.clone() });
+                    }
                 }
-                if !dispatch.enabled(meta) {
-                    continue;
-                }
-                let (par, ptok) = resolve(&handles, parent);
-                with_values(meta, vals, |vs| {
-                    let event = match par {
-                        None => Event::new(meta, vs),
-                        Some(pid) => Event::new_child_of(pid, meta, vs),
-                    };
-                    dispatch.event(&event);
-                });
-                log.push(FeCall::Event { k: *k, parent: ptok, vals: vals.clone() });
             }
         }
+        self.log = log;
     }
-    log
+}
+
+/// Runs the program against `dispatch`; returns the log of subscriber calls made.
+pub fn run(dispatch: &Dispatch, prog: &Program) -> Vec<FeCall> {
+    if prog.malformed {
+        return vec![];
+    }
+    let mut runner = Runner::new(&prog.sites);
+    for op in &prog.ops {
+        runner.step(dispatch, op);
+    }
+    runner.log
 }
 
 // ---------------------------------------------------------------------------------------------
